@@ -65,6 +65,7 @@ class Life:
         self.dir = os.path.join(tmp, 'cache')
         self.stored = set()
         self.handles = []
+        self.extras = []       # wrappers that hold a copy of a handle
         self.calls = None
         self.clear = None
 
@@ -111,7 +112,7 @@ def run_life(ld, n, hist, res):
         for s, op in enumerate(hist):
             c = {**case, 'step': s}
             if op[0] == 'open':
-                if w.handles:
+                if w.handles or w.extras:
                     continue
                 _, reuse, clear = op
                 nonempty = w.nonempty()
@@ -179,14 +180,48 @@ def run_life(ld, n, hist, res):
                 except BaseException as e:
                     res.violation('copy-raised', c, exc_sig(e), sig={'op': 'copy'})
                     return
-            elif op[0] == 'release':
+            elif op[0] == 'serialize':
+                # serialising a dataset (as a process backend or a checkpoint
+                # would) creates no new holder and must not change when the
+                # directory is removed
                 if not w.handles:
                     continue
-                j = op[1] % len(w.handles)
-                w.handles.pop(j)
+                ds_ = w.handles[op[2] % len(w.handles)]
+                try:
+                    if op[1] == 'dill':
+                        import dill
+                        dill.dumps(ds_)
+                    elif op[1] == 'pickle':
+                        import pickle
+                        pickle.dumps(ds_)
+                    else:
+                        ds_.__reduce_ex__(4)
+                    res.count('serializations_done')
+                except BaseException:
+                    res.count('serializations_refused')
+                del ds_
+            elif op[0] == 'hold':
+                # a wrapper (copy, frozen copy, lazy apply, profiling) keeps a
+                # copy of the dataset alive: it shares the cache
+                if not w.handles:
+                    continue
+                from ..vias import through
+                try:
+                    w.extras.append(through(ld, w.handles[op[2] % len(w.handles)], op[1]))
+                    res.count('wrappers_holding_the_cache')
+                except BaseException as e:
+                    res.violation('copy-raised', c, exc_sig(e), sig={'op': 'hold', 'path': op[1]})
+                    return
+            elif op[0] == 'release':
+                if not w.handles and not w.extras:
+                    continue
+                if w.handles and (op[1] % 2 == 0 or not w.extras):
+                    w.handles.pop(op[1] % len(w.handles))
+                else:
+                    w.extras.pop(op[1] % len(w.extras))
                 gc.collect()
                 exists = os.path.exists(w.dir)
-                last = not w.handles
+                last = not w.handles and not w.extras
                 sig = {'op': 'release', 'last': last, 'clear': w.clear}
                 res.count('release_checks')
                 if not last:
@@ -203,6 +238,7 @@ def run_life(ld, n, hist, res):
                         res.violation('directory-removed-despite-clear-false', c, None, sig=sig)
                         return
         w.handles = []
+        w.extras = []
         gc.collect()
     finally:
         gc.collect()
@@ -223,6 +259,11 @@ def scripted_histories():
                 h = [('open', r1, c1)] + list(fill)
                 if copy_first:
                     h += [('copy', 0), ('release', 0), ('get', 'neg', 0, 0)]
+                if copy_first and r1:
+                    h += [('serialize', ('dill', 'pickle', 'reduce')[len(fill)], 0)]
+                if not copy_first and fill:
+                    h += [('hold', ('lazy-apply', 'profiling')[len(fill) - 1], 0),
+                          ('release', 0), ('release', 1)]
                 h += [('release', 0), ('open', r2, c2), ('get', 'iter', 2, 0),
                       ('get', 'idx', 1, 0), ('release', 0), ('open', True, True),
                       ('get', 'slice', 0, 0), ('release', 0)]
@@ -235,8 +276,13 @@ def random_history(rng):
         r = rng.random()
         if r < 0.5:
             h.append(rng.choice(GETS))
-        elif r < 0.62:
+        elif r < 0.58:
             h.append(('copy', rng.randrange(3)))
+        elif r < 0.62:
+            h.append(('serialize', rng.choice(('dill', 'pickle', 'reduce')), rng.randrange(3)))
+        elif r < 0.66:
+            from ..vias import COPYING
+            h.append(('hold', rng.choice(COPYING), rng.randrange(3)))
         elif r < 0.82:
             h.append(('release', rng.randrange(3)))
         else:
